@@ -1,5 +1,5 @@
 (* C12 — indentation is governed solely by the configured indent unit. *)
-From TV Require Import Sym SymProofs WideProofs.
+From TV Require Import Sym SymProofs WideProofs Conv Format TabParam.
 
 (* Reading of the property over the model. For a symbolic document D (nests a * U + b) and any unit u:
    when no line needs wrapping, rendering the instance `inst u D` emits exactly the instances of the symbolic
@@ -7,9 +7,10 @@ From TV Require Import Sym SymProofs WideProofs.
    with (a, b) independent of the unit. A line with b = 0 is indented by a whole multiple of the unit; lines with
    b <> 0 arise only under Align (comment continuation lines) and lines inside a text atom (strings, raw text,
    verbatim regions) are not produced by a line-break event at all: these are the property's exemptions.
-   That the converter's documents for the units 1..8 ARE instances of one symbolic document, and that the wide
-   renderer agrees with the real one at the width used, is checked on every case by the extracted `sym_of`,
-   `inst` and `render_wide` (C12 check, obligations K2-scale and K3-wide). *)
+   That the converter's documents for any two non-zero units ARE instances of one symbolic document is
+   `C12_converter_parametric_in_unit` below (TabRel.v, TabProofs.v: a relational proof over every stylist and every
+   converter); the per-case evaluation of the extracted `sym_of`, `inst` and `render_wide` (C12 check, obligations
+   K2-scale and K3-wide) remains as the tie of these theorems to the implementation's documents. *)
 
 Theorem C12_symbolic_indentation :
   forall u (D : sdoc) es,
@@ -65,3 +66,64 @@ Check C12_real_renderer_scales :
     render_sym_events D = Some es -> room (inst u D) <= width ->
     render_events width (inst u D) = Some (map (inst_event u) es).
 Print Assumptions C12_real_renderer_scales.
+
+(* (theorem C) the converter is parametric in the indent unit: for two non-zero units the documents built for one tree
+   are the instances of ONE symbolic document, with the same number of conversions; a panic would be at the same
+   site.  The unit 0 is excluded because the builder's `nest 0 d` is `d`: the shape of the document changes (the
+   rendering does not; K2/K5 cover tab_spaces = 0 case by case). *)
+Theorem C12_converter_parametric_in_unit :
+  forall swidth (c : config) t1 t2, t1 <> 0 -> t2 <> 0 -> forall tree,
+    match convert_root swidth (with_tab c t1) tree, convert_root swidth (with_tab c t2) tree with
+    | Ok (d1, n1), Ok (d2, n2) => n1 = n2 /\ exists D, d1 = inst t1 D /\ d2 = inst t2 D
+    | Panic s1, Panic s2 => s1 = s2
+    | _, _ => False
+    end.
+Proof. exact convert_root_parametric. Qed.
+Check C12_converter_parametric_in_unit :
+  forall swidth (c : config) t1 t2, t1 <> 0 -> t2 <> 0 -> forall tree,
+    match convert_root swidth (with_tab c t1) tree, convert_root swidth (with_tab c t2) tree with
+    | Ok (d1, n1), Ok (d2, n2) => n1 = n2 /\ exists D, d1 = inst t1 D /\ d2 = inst t2 D
+    | Panic s1, Panic s2 => s1 = s2
+    | _, _ => False
+    end.
+Print Assumptions C12_converter_parametric_in_unit.
+
+(* the property over the model, all three theorems together: whatever the tree, the configuration and the two
+   non-zero units, at any widths with room the real renderer lays both documents out as the instances of one
+   symbolic layout: the same text atoms, and after each layout line break a*u + b blanks with (a, b) independent
+   of the unit *)
+Theorem C12_indentation_scales :
+  forall swidth (c : config) t1 t2, t1 <> 0 -> t2 <> 0 -> forall tree d1 n,
+    convert_root swidth (with_tab c t1) tree = Ok (d1, n) ->
+    exists D d2,
+      convert_root swidth (with_tab c t2) tree = Ok (d2, n) /\ d1 = inst t1 D /\ d2 = inst t2 D /\
+      forall es w1 w2,
+        render_sym_events D = Some es -> room d1 <= w1 -> room d2 <= w2 ->
+        render_events w1 d1 = Some (map (inst_event t1) es) /\
+        render_events w2 d2 = Some (map (inst_event t2) es).
+Proof. exact indentation_scales. Qed.
+Check C12_indentation_scales :
+  forall swidth (c : config) t1 t2, t1 <> 0 -> t2 <> 0 -> forall tree d1 n,
+    convert_root swidth (with_tab c t1) tree = Ok (d1, n) ->
+    exists D d2,
+      convert_root swidth (with_tab c t2) tree = Ok (d2, n) /\ d1 = inst t1 D /\ d2 = inst t2 D /\
+      forall es w1 w2,
+        render_sym_events D = Some es -> room d1 <= w1 -> room d2 <= w2 ->
+        render_events w1 d1 = Some (map (inst_event t1) es) /\
+        render_events w2 d2 = Some (map (inst_event t2) es).
+Print Assumptions C12_indentation_scales.
+
+(* non-vacuity: `#[⏎a⏎]` is converted, for the units 2 and 4, to the instances of one symbolic document whose only
+   nest is 1*U + 0 *)
+Definition ex_block : tree :=
+  Inner KMarkup [Leaf KHash [35] no_attrs;
+    Inner KContentBlock [Leaf KLeftBracket [91] no_attrs;
+      Inner KMarkup [Leaf KSpace [10] no_attrs; Leaf KText [97] no_attrs; Leaf KSpace [10] no_attrs] no_attrs;
+      Leaf KRightBracket [93] no_attrs] no_attrs] no_attrs.
+Definition ex_block_sym : sdoc :=
+  SAppend (SText [35])
+    (SAppend (SAppend (SText [91]) (SGroup (SNest 1 0 (SAppend (SAppend SHardline (SText [97])) SHardline)))) (SText [93])).
+Example C12_example_parametric :
+  convert_root (fun s => N.of_nat (length s)) (with_tab CliGen.cfg_default 2) ex_block = Ok (inst 2 ex_block_sym, 3) /\
+  convert_root (fun s => N.of_nat (length s)) (with_tab CliGen.cfg_default 4) ex_block = Ok (inst 4 ex_block_sym, 3).
+Proof. vm_compute. split; reflexivity. Qed.
